@@ -110,6 +110,15 @@ class Evaluator:
                         return conv.get(v)
                     return (not v) if neg else v
                 return None
+        if k == 'binop' and t[1] in ('BitAnd', 'BitOr'):
+            va, vb = self.ev(t[2], depth + 1), self.ev(t[3], depth + 1)
+            if t[1] == 'BitAnd':
+                if va is False or vb is False:
+                    return False
+                return True if (va is True and vb is True) else None
+            if va is True or vb is True:
+                return True
+            return False if (va is False and vb is False) else None
         rw = self._rewrite_cmp(t)
         if rw is not None:
             return self.ev(rw, depth + 1)
@@ -229,6 +238,14 @@ class Evaluator:
         if is_cmp_term(t):
             op, a, b = cmp_parts(t)
             if op in ('Eq', 'Ne', 'eq', 'ne'):
+                ta, tb = drop_lv(a), drop_lv(b)
+                if ta[0] == 'tuple' and tb[0] == 'tuple' and len(ta[1]) == len(tb[1]) and ta[1]:
+                    # (a1, a2) == (b1, b2)  is  a1 == b1 & a2 == b2
+                    conj = None
+                    for x_, y_ in zip(ta[1], tb[1]):
+                        e_ = ('binop', 'Eq', x_, y_)
+                        conj = e_ if conj is None else ('binop', 'BitAnd', conj, e_)
+                    return conj if op in ('Eq', 'eq') else ('unop', 'Not', conj)
                 for x, y in ((a, b), (b, a)):
                     xs = drop_lv(x)
                     if xs[0] == 'call' and call_name(xs) in ('max', 'min') and len(xs[2]) == 2:
